@@ -524,7 +524,7 @@ func (w *docWorld) projOut(d dDoc, payload []byte, url *jsonapi.URL) dOut {
 }
 
 func (w *docWorld) projRes(r jsonapi.Resource) dRes {
-	_, vals := projVals(r, w.km, w.tb)
+	_, vals := projValsRaw(r, w.km, w.tb)
 	for f, v := range vals {
 		v.IDs = w.v.toks(v.IDs)
 		vals[f] = v
